@@ -42,6 +42,7 @@ func runRules(l *Loaded, tier string, rules []string) (*Ctx, error) {
 		return nil, err
 	}
 	c := &Ctx{L: l, m: m, e: newEngine(m), r: newReport(), tier: tier, done: map[string]bool{}}
+	predicateExpander = c.expandPredicate
 	if len(l.Renames) > 0 {
 		c.r.note("identifiers found by structure and read under their canonical names: %s", strings.Join(l.Renames, "; "))
 	}
